@@ -49,12 +49,13 @@ SUBCLASSES = {
     'Push': ['Push'], 'Pop': ['Pop'],
     'AlignmentMarker': ['Alignment', 'RoleAlignment'],
     'Alignment': ['Alignment'], 'RoleAlignment': ['RoleAlignment'],
-    'Token': ['Token'], 'OtherEpidatum': ['OtherEpidatum'],
+    'Token': ['Token'], 'OtherEpidatum': ['OtherEpidatum'], 'DecodeError': ['DecodeError'],
 }
 FIELDS = {
     'Push': ['variable'], 'Pop': [], 'Alignment': ['indices', 'prefix'],
     'RoleAlignment': ['indices', 'prefix'], 'OtherEpidatum': ['mode'],
     'Token': ['type', 'text', 'lineno', 'offset', 'line'],
+    'DecodeError': ['message', 'lineno', 'offset', 'text'],
 }
 MODE = {'Push': 0, 'Pop': 0, 'Alignment': 2, 'RoleAlignment': 1}
 
